@@ -113,6 +113,9 @@ def programs(tier):
             progs.append(['return', ['resp', ['err', st2, 't'], st], None])
             progs.append(['return', ['gen', [['resp', st2]]], st if st in (201, 204) else None])
     progs.append(['raise', ['exc']])
+    for fam in ('unicode-decode', 'unicode-encode', 'key', 'os', 'lookup'):
+        progs.append(['raise', ['exc', fam]])
+        progs.append(['return', ['gen', [['raise', fam]]], None])
     seen = []
     for p in progs:
         if p not in seen:
@@ -263,9 +266,24 @@ class FileWrapper:
             yield d
 
 
+def fail(family, text):
+    """an application failure of one of several exception families (none of them is a client error)"""
+    if family == 'unicode-decode':
+        b'caf\xe9 \xff'.decode('utf8')
+    if family == 'unicode-encode':
+        'caf\xe9 \u20ac'.encode('ascii')
+    if family == 'key':
+        raise KeyError(text)
+    if family == 'os':
+        raise FileNotFoundError(2, text)
+    if family == 'lookup':
+        raise LookupError(text)
+    raise ValueError(text)
+
+
 def real_item(om, it):
     if it[0] == 'raise':
-        raise ValueError('item failed')
+        fail(it[1] if len(it) > 1 else None, 'item failed')
     if it[0] == 'resp':
         return om.HTTPResponse('r', it[1])
     if it[0] == 'err':
@@ -440,7 +458,7 @@ def serve(om, prog, method, cfg, outcome='found', file_wrapper=False):
                 app.remove_hook('before_request', hooks[f'before{_i}'])     # a one-shot hook
             if cfg['fail'] and cfg['fail'][0] == _i:
                 if cfg['fail'][1] == 'exc':
-                    raise ValueError('before hook failed')
+                    fail(['unicode-decode', None, 'key'][(cfg['before'] + cfg['after']) % 3], 'before hook failed')
                 raise om.HTTPResponse('hooked', 201)
         hooks[f'before{i}'] = bh
         app.add_hook('before_request', bh)
@@ -470,7 +488,7 @@ def serve(om, prog, method, cfg, outcome='found', file_wrapper=False):
         if prog[0] == 'raise':
             e = prog[1]
             if e[0] == 'exc':
-                raise ValueError('handler failed')
+                fail(e[1] if len(e) > 1 else None, 'handler failed')
             raise real_value(om, e, rec)
         if prog[2]:
             app.response.status = prog[2]
